@@ -18,11 +18,22 @@ inductive MDoc where
   | done (d : AcDoc)
   | unclosed (d : AcDoc) (o : Tag) (m : MDoc)
   | stray (d : AcDoc) (cl : Tag) (tail : Bytes)
+  /-- well-formed `d`, then a line of more than `MAX_LINESIZE − 1` bytes that is no comment, then
+      ARBITRARY text -/
+  | tooLong (d : AcDoc) (line : Bytes) (tail : Bytes)
+
+/-- a line that does not fit into the line buffer and is no comment: no newline / NUL inside, at
+    least `MAX_LINESIZE` bytes, and the first non-blank byte of its first `MAX_LINESIZE − 1` bytes is
+    not `#` -/
+def LongOk (line : Bytes) : Prop :=
+  (∀ c ∈ line, c ≠ 10 ∧ c ≠ 0) ∧ maxLineSize ≤ line.length ∧
+  (Str.trim (line.take (maxLineSize - 1))).head? ≠ some 35
 
 def renderM : MDoc → Bytes
   | .done d => renderAc d
   | .unclosed d o m => renderAc d ++ (renderOpen o ++ 10 :: renderM m)
   | .stray d cl tail => renderAc d ++ (renderClose cl ++ 10 :: tail)
+  | .tooLong d line tail => renderAc d ++ (line ++ 10 :: tail)
 
 /-- the closing tag `name` closes nothing: top level, or the innermost open section `n` has another name -/
 def closesNothing (ci : Bool) (name : Bytes) : Option Bytes → Prop
@@ -35,6 +46,7 @@ def MDocOk (ci : Bool) : MDoc → (pn : Option Bytes) → Prop
   | .unclosed d o m, _ => DocOk ci d ∧ OpenOk o ∧ MDocOk ci m (some (o.texts.headD []))
   | .stray d cl _, pn =>
     DocOk ci d ∧ CloseOk cl ∧ closesNothing ci (cl.texts.headD []) pn
+  | .tooLong d line _, _ => DocOk ci d ∧ LongOk line
 
 /-- what the documentation says happens (events most recent first, as in `specDoc`): the callbacks
     of the well-formed parts in file order up to the first offence; a closing tag that closes
@@ -59,6 +71,10 @@ def specM (cfg : Cfg) : MDoc → Ctx → (top : Bool) → (ln oc ns : Nat) → (
     match specDoc cfg d c ln oc ns evs with
     | (e, .error k) => (e, .errLine k)
     | (e, .ok (ln', _)) => (e, .errLine (ln' + 1))
+  | .tooLong d _ _, c, _, ln, oc, ns, evs =>
+    match specDoc cfg d c ln oc ns evs with
+    | (e, .error k) => (e, .errLine k)
+    | (e, .ok (ln', _)) => (e, .errLine (ln' + 1))        -- "Line is too long."
 
 /-- a closing tag that does not name the innermost open section is rejected at its line -/
 theorem step_stray (cfg : Cfg) (sid : Nat) (parent : Option CbData) (fuel oc ns ln : Nat) (evs : List Event)
@@ -113,6 +129,13 @@ theorem specM_inner (cfg : Cfg) (m : MDoc) : ∀ (c : Ctx) (ln oc ns : Nat) (evs
       | error k => exact ⟨k, rfl⟩
       | ok pr => exact ⟨pr.1, rfl⟩
   | stray d cl tail =>
+    intro c ln oc ns evs
+    simp only [specM]
+    cases specDoc cfg d c ln oc ns evs with
+    | mk e r => cases r with
+      | error k => exact ⟨k, rfl⟩
+      | ok pr => exact ⟨pr.1 + 1, rfl⟩
+  | tooLong d line tail =>
     intro c ln oc ns evs
     simp only [specM]
     cases specDoc cfg d c ln oc ns evs with
@@ -187,6 +210,29 @@ theorem parseInline_mdoc (cfg : Cfg) (m : MDoc) :
         simp only [List.length_append, List.length_cons] at hlen; omega
       rw [hpos]
       obtain ⟨msg, hst⟩ := step_stray cfg c.sid parent (fuel - d.top - 1) oc' (nsAfter cfg d c ns) ln' e cl tail hcl hmis
+      exact ⟨_, _, hst, rfl⟩
+  | tooLong d line tail =>
+    intro c parent fuel oc ns ln evs hok hlink hlev hf
+    obtain ⟨hokd, hno, hll, hnc⟩ := hok
+    have hlen : (renderAc d ++ (line ++ 10 :: tail)).length < fuel := by simpa [renderM] using hf
+    have h := parseInline_doc cfg d c parent fuel oc ns ln evs (line ++ 10 :: tail) hokd hlink hlev hlen
+    simp only [renderM, specM]
+    cases hs : specDoc cfg d c ln oc ns evs with
+    | mk e r =>
+    cases r with
+    | error k =>
+      obtain ⟨inp, msg, hp⟩ := h.1 e k hs
+      exact ⟨_, _, hp, rfl⟩
+    | ok pr =>
+      obtain ⟨ln', oc'⟩ := pr
+      have hp := h.2 e ln' oc' hs
+      rw [hp]
+      have hpos : fuel - d.top = (fuel - d.top - 1) + 1 := by
+        have := top_le d
+        simp only [List.length_append, List.length_cons] at hlen; omega
+      rw [hpos]
+      have hst := parseInline_tooLong cfg (fuel - d.top - 1) c.sid parent oc' (nsAfter cfg d c ns) ln' e line
+        (10 :: tail) hno hll hnc (Or.inr ⟨_, rfl⟩)
       exact ⟨_, _, hst, rfl⟩
   | unclosed d o m ih =>
     intro c parent fuel oc ns ln evs hok hlink hlev hf
@@ -272,6 +318,7 @@ def MDoc.lines : MDoc → Nat
   | .done d => d.lines
   | .unclosed d _ m => d.lines + 1 + m.lines
   | .stray d _ _ => d.lines + 1
+  | .tooLong d _ _ => d.lines + 1
 
 /-- the declarative reading, lines counted from the first line of `m`: the callbacks are those of
     the well-formed parts (`walk`) and of the opening tags, in file order, up to the first offence;
@@ -299,6 +346,10 @@ def walkM (cfg : Cfg) : MDoc → Ctx → (top : Bool) → (ns : Nat) → List Ev
     match walk cfg d c ns with
     | (es, some i) => (es, .errLine i)
     | (es, none) => (es, .errLine (d.lines + 1))
+  | .tooLong d _ _, c, _, ns =>
+    match walk cfg d c ns with
+    | (es, some i) => (es, .errLine i)
+    | (es, none) => (es, .errLine (d.lines + 1))
 
 /-- a document that is not simply well-formed text is never accepted -/
 theorem walkM_err (cfg : Cfg) (m : MDoc) : ∀ (c : Ctx) (top : Bool) (ns : Nat),
@@ -313,6 +364,11 @@ theorem walkM_err (cfg : Cfg) (m : MDoc) : ∀ (c : Ctx) (top : Bool) (ns : Nat)
       | mk es r => cases r <;> exact ⟨_, rfl⟩
     · exact absurd rfl (h d)
   | stray d cl tail =>
+    intro c top ns _
+    simp only [walkM]
+    cases walk cfg d c ns with
+    | mk es r => cases r <;> exact ⟨_, rfl⟩
+  | tooLong d line tail =>
     intro c top ns _
     simp only [walkM]
     cases walk cfg d c ns with
@@ -350,6 +406,13 @@ theorem specM_eq_walkM (cfg : Cfg) (m : MDoc) : ∀ (c : Ctx) (top : Bool) (ln o
       | some i => simp
       | none => cases top <;> simp
   | stray d cl tail =>
+    intro c top ln oc ns evs
+    simp only [specM, walkM, specDoc_eq_walk]
+    cases hw : walk cfg d c ns with
+    | mk es r => cases r with
+      | some i => simp
+      | none => simp; omega
+  | tooLong d line tail =>
     intro c top ln oc ns evs
     simp only [specM, walkM, specDoc_eq_walk]
     cases hw : walk cfg d c ns with
